@@ -37,6 +37,9 @@ impl<S, K: Clone + Eq + Hash> QueueInner<S, K> {
 pub struct FairQueue<S, K: Clone> {
     block_on_no_clients: bool,
     inner: Arc<Mutex<QueueInner<S, K>>>,
+    /// Called with the key of a stream that has ended (its peer closed the
+    /// connection), so that the owner can release what else it holds for it.
+    on_stream_end: Option<Box<dyn Fn(&K) + Send + Sync>>,
 }
 
 impl<S, K: Clone> Drop for FairQueue<S, K> {
@@ -148,6 +151,10 @@ where
                 }
                 Poll::Ready(None) => {
                     // Peer disconnected. Don't put the stream back.
+                    drop(io_stream);
+                    if let Some(on_stream_end) = &fair_queue.on_stream_end {
+                        on_stream_end(&event.key);
+                    }
                     // Continue to poll other streams instead of returning None immediately.
                     continue;
                 }
@@ -176,7 +183,12 @@ impl<S, K: Clone> FairQueue<S, K> {
                 streams: HashMap::new(),
                 waker: None,
             })),
+            on_stream_end: None,
         }
+    }
+
+    pub(crate) fn set_on_stream_end(&mut self, f: impl Fn(&K) + Send + Sync + 'static) {
+        self.on_stream_end = Some(Box::new(f));
     }
 
     pub(crate) fn inner(&self) -> Arc<Mutex<QueueInner<S, K>>> {
